@@ -21,6 +21,6 @@ For each change X in (A, B) deliver, under {wt}/_seed/X/ :
   demo.py     - a small standalone program (run as `{wt}/wtpy {wt}/_seed/X/demo.py`) that exercises the public API and exits 1 printing what is wrong when the property is violated, and exits 0 when it holds. It must exit 1 with the change applied (after rebuilding if Cython was edited) and exit 0 on the unmodified tree. It must be deterministic.
   notes.md    - 5-10 lines: what was changed, why the test suite cannot see it, exactly what is needed for it to manifest (order / input / configuration), and the outputs you observed: demo with and without the change, and the test-suite summary line with the change.
 
-PROCEDURE. Study the anchored code. For each change: edit, rebuild if needed (only edited modules recompile; the machine is shared, use -j4), run the full test suite through wtpy and confirm it passes exactly as on the unmodified tree (run it once on the unmodified tree first to know the baseline summary line; it takes a few minutes), run the demo (must exit 1), save `git diff > _seed/X/patch.diff`, then `git checkout -- .` (and rebuild) and confirm the demo exits 0. If the test suite catches a candidate, discard it and pick another. When finished, leave the worktree source clean (`git status` shows only _seed/, wtpy, WORKTREE_README.txt as untracked) and REBUILT from the clean source. Do not commit. Never use `pkill -f`.
+PROCEDURE. Study the anchored code. For each change: edit, rebuild if needed (only edited modules recompile; the machine is shared, use -j4), run the full test suite through wtpy and confirm it passes exactly as on the unmodified tree (run it once on the unmodified tree first to know the baseline summary line; it takes 1-3 minutes with OPENBLAS_NUM_THREADS=1 OMP_NUM_THREADS=1 exported, as the README says - without them it can take over an hour on this shared machine), run the demo (must exit 1), save `git diff > _seed/X/patch.diff`, then `git checkout -- .` (and rebuild) and confirm the demo exits 0. If the test suite catches a candidate, discard it and pick another. When finished, leave the worktree source clean (`git status` shows only _seed/, wtpy, WORKTREE_README.txt as untracked) and REBUILT from the clean source. Do not commit. Never use `pkill -f`.
 
 Final message: for A and B - one paragraph each with the idea, the files touched, what it needs to manifest, and the observed outputs.""")
